@@ -273,7 +273,8 @@ theorem unionStep_sound {E : Eqn → Prop} {s : State} (S : Sound E s) {a b ra r
     subst hra hrb; exact ((S.repOf a).symm.trans hab).trans (S.repOf b)
   unfold unionStep
   -- stage 1-3: forest, rep, cls
-  have S3 : Sound E { s with forest := addEdge s.forest a b lab,
+  have S3 : Sound E { s with stuck := s.stuck || !pathComplete s.forest s.forest.length a,
+                             forest := addEdge s.forest a b lab,
                              rep := (clsOf s ra).foldl (fun rep c => aset rep c rb) s.rep,
                              cls := adel (aset s.cls rb (clsOf s rb ++ clsOf s ra)) ra } := by
     refine ⟨?_, ?_, S.use, S.lookup, S.pending, addEdge_ok S.forest ok st⟩
